@@ -17,6 +17,10 @@ package collection
 //     Expiry envelope: the cache arms the timer with expire·f, f in [0.95,1.05]
 //     (the documented deviation), the wheel fires after
 //     floor(delay/interval) ticks; allowed: [floor(0.95e)-1, floor(1.05e)+1] ticks.
+//     Third round: the values stored are of every kind (zz_verif_c16_values_test.go: NaN, typed nils,
+//     pointers, []byte, maps, funcs, structs with slice fields, the same value again, equal but not
+//     identical values); contents are compared by identity / kind-aware deep comparison, and an entry
+//     that outlives its envelope is reported with the class of its value in the key.
 //  2. SafeMap around its generation switches: deletion counters are advanced
 //     close to maxDeletion by direct assignment (standing for that many Set/Del
 //     pairs of a fresh key — only in states where none of these pairs could have
@@ -96,6 +100,7 @@ func vfQuiesce(target int) bool {
 
 type vfEntry struct {
 	val     any
+	cv      vfVal
 	setTick int
 	lo, hi  int // fires at the s-th tick after setTick, lo <= s <= hi
 	expire  time.Duration
@@ -122,6 +127,56 @@ type vfCacheRun struct {
 	// statistics
 	expiries, renewals, evictions, evictAfterExpiry, envelopeEarlyHalf, envelopeLateHalf int64
 	takeHits, takeLoads, takeFails                                                       int64
+	// values of every kind (zz_verif_c16_values_test.go)
+	r             *kit.Rand
+	last          *vfVal
+	vs            vfValStats
+	expiredByCls  map[string]int64
+}
+
+// vfNewVal draws the next value to store under k: a fresh one of some kind, the same value the key (or the key
+// written before) holds, or a value equal but not identical to it.
+func (cr *vfCacheRun) vfNewVal(k string) vfVal {
+	cr.nextV++
+	var v vfVal
+	if cr.r == nil {
+		v = vfMkFresh("int", cr.nextV)
+	} else {
+		prev := cr.last
+		if cur, ok := cr.model[k]; ok && cr.r.Chance(0.7) {
+			prev = &cur.cv
+		}
+		v = vfMkVal(cr.r, cr.nextV, prev)
+	}
+	cr.vs.note(v)
+	cr.last = &v
+	return v
+}
+
+// vfClassSuffix keeps the established keys for plain comparable scalars and names the class of the value otherwise.
+func vfClassSuffix(v vfVal) string {
+	if v.class == vfClScalar || v.class == vfClNil {
+		return ""
+	}
+	return "/value-kind=" + v.class
+}
+
+func (cr *vfCacheRun) noteExpired(e *vfEntry) {
+	cr.expiries++
+	if cr.expiredByCls == nil {
+		cr.expiredByCls = map[string]int64{}
+	}
+	cr.expiredByCls[e.cv.class]++
+}
+
+func (cr *vfCacheRun) vfValObs(prefix string) {
+	cr.vs.obs(cr.c, prefix)
+	cr.c.Obs(prefix+"_expiries_of_comparable_scalar_value", cr.expiredByCls[vfClScalar])
+	cr.c.Obs(prefix+"_expiries_of_nan_value", cr.expiredByCls[vfClNaN])
+	cr.c.Obs(prefix+"_expiries_of_untyped_nil_value", cr.expiredByCls[vfClNil])
+	cr.c.Obs(prefix+"_expiries_of_typed_nil_or_zero_value", cr.expiredByCls[vfClZero])
+	cr.c.Obs(prefix+"_expiries_of_pointer_or_channel_value", cr.expiredByCls[vfClReference])
+	cr.c.Obs(prefix+"_expiries_of_value_of_uncomparable_dynamic_type", cr.expiredByCls[vfClUncomparable])
 }
 
 func (cr *vfCacheRun) op(s string) {
@@ -143,7 +198,7 @@ func (cr *vfCacheRun) wit() map[string]any {
 	w["ops"] = ops
 	pend := map[string]string{}
 	for k, e := range cr.model {
-		pend[k] = fmt.Sprintf("value=%v set at tick %d expire=%v allowed expiry ticks [%d,%d] after set", e.val, e.setTick, e.expire, e.lo, e.hi)
+		pend[k] = fmt.Sprintf("value=%v set at tick %d expire=%v allowed expiry ticks [%d,%d] after set", e.cv, e.setTick, e.expire, e.lo, e.hi)
 	}
 	w["model_entries"] = pend
 	w["model_lru_most_recent_first"] = append([]string(nil), cr.order...)
@@ -193,13 +248,13 @@ func (cr *vfCacheRun) drop(k, why string) {
 	}
 }
 
-func (cr *vfCacheRun) mset(k string, v any, e time.Duration) {
+func (cr *vfCacheRun) mset(k string, v vfVal, e time.Duration) {
 	lo, hi := cr.envelope(e)
 	if old, ok := cr.model[k]; ok {
 		cr.renewals++
 		_ = old
 	}
-	cr.model[k] = &vfEntry{val: v, setTick: cr.ticks, lo: lo, hi: hi, expire: e}
+	cr.model[k] = &vfEntry{val: v.v, cv: v, setTick: cr.ticks, lo: lo, hi: hi, expire: e}
 	delete(cr.gone, k)
 	cr.touch(k)
 	if cr.limit > 0 && len(cr.order) > cr.limit {
@@ -239,22 +294,22 @@ func (cr *vfCacheRun) settle(afterTick bool) {
 		v, present := snap[k]
 		switch {
 		case present && n >= e.hi:
-			cr.viol("C16/cache/expiry/too-late", fmt.Sprintf("key %s (expire %v, set at tick %d) is still cached after %d ticks; it must be gone after at most %d", k, e.expire, e.setTick, n, e.hi))
-		case present && v != e.val:
-			cr.viol("C16/cache/state/not-latest-value", fmt.Sprintf("key %s holds %v, latest value set is %v", k, v, e.val))
+			cr.viol("C16/cache/expiry/too-late"+vfClassSuffix(e.cv), fmt.Sprintf("key %s = %v (expire %v, set at tick %d) is still cached after %d ticks; it must be gone after at most %d", k, e.cv, e.expire, e.setTick, n, e.hi))
+		case present && !vfSame(v, e.val):
+			cr.viol("C16/cache/state/not-latest-value"+vfClassSuffix(e.cv), fmt.Sprintf("key %s holds %s, latest value set is %v (reference kinds are compared by identity)", k, vfDescr(v), e.cv))
 		case !present && !afterTick:
 			if n < e.lo || n > 0 {
 				// no tick since the last comparison: nothing can have expired (an immediate expiry is possible
 				// only right after a Set with an envelope starting at 0 ticks, i.e. n == 0 and lo == 0)
-				cr.viol("C16/cache/state/live-key-missing", fmt.Sprintf("key %s=%v vanished during an operation that neither deleted it nor was due to evict it (limit %d)", k, e.val, cr.limit))
+				cr.viol("C16/cache/state/live-key-missing", fmt.Sprintf("key %s=%v vanished during an operation that neither deleted it nor was due to evict it (limit %d)", k, e.cv, cr.limit))
 				break
 			}
-			cr.expiries++
+			cr.noteExpired(e)
 			cr.drop(k, "expired")
 		case !present && n < e.lo:
 			cr.viol("C16/cache/expiry/too-early", fmt.Sprintf("key %s (expire %v, set at tick %d) vanished after %d ticks; it was neither deleted nor due for eviction and cannot expire before tick %d after set", k, e.expire, e.setTick, n, e.lo))
 		case !present:
-			cr.expiries++
+			cr.noteExpired(e)
 			if 2*n < e.lo+e.hi {
 				cr.envelopeEarlyHalf++
 			} else {
@@ -268,7 +323,7 @@ func (cr *vfCacheRun) settle(afterTick bool) {
 	}
 	for k, v := range snap {
 		if _, ok := cr.model[k]; !ok {
-			cr.viol("C16/cache/state/dead-key-present/"+cr.why(k), fmt.Sprintf("key %s=%v is cached although it is %s", k, v, cr.why(k)))
+			cr.viol("C16/cache/state/dead-key-present/"+cr.why(k), fmt.Sprintf("key %s=%s is cached although it is %s", k, vfDescr(v), cr.why(k)))
 			return
 		}
 	}
@@ -325,7 +380,7 @@ func vfCacheHistory(c *kit.Case, r *kit.Rand, sample bool) {
 	}
 	cache.timingWheel = tw
 	cr := &vfCacheRun{c: c, cache: cache, tk: tk, tw: tw, baseline: vfGoroutines + 1, interval: old.interval, limit: limit, expire: expire,
-		model: map[string]*vfEntry{}, gone: map[string]string{}, h: 14695981039346656037}
+		model: map[string]*vfEntry{}, gone: map[string]string{}, h: 14695981039346656037, r: r}
 	defer func() {
 		if p := recover(); p != nil {
 			cr.viol("C16/cache/panic", fmt.Sprintf("Cache panicked: %v", p))
@@ -353,16 +408,15 @@ func vfCacheHistory(c *kit.Case, r *kit.Rand, sample bool) {
 		k := kit.Choose(r, keys)
 		switch r.Pick(wSet, wGet, wDel, wTake, wTick) {
 		case 0:
-			cr.nextV++
-			v := cr.nextV
+			v := cr.vfNewVal(k)
 			if r.Chance(0.4) {
 				e := pickE()
-				cr.op(fmt.Sprintf("SetWithExpire(%s,%d,%v)", k, v, e))
-				cache.SetWithExpire(k, v, e)
+				cr.op(fmt.Sprintf("SetWithExpire(%s,%v,%v)", k, v, e))
+				cache.SetWithExpire(k, v.v, e)
 				cr.mset(k, v, e)
 			} else {
-				cr.op(fmt.Sprintf("Set(%s,%d)", k, v))
-				cache.Set(k, v)
+				cr.op(fmt.Sprintf("Set(%s,%v)", k, v))
+				cache.Set(k, v.v)
 				cr.mset(k, v, expire)
 			}
 		case 1:
@@ -371,13 +425,14 @@ func vfCacheHistory(c *kit.Case, r *kit.Rand, sample bool) {
 			e, wok := cr.model[k]
 			switch {
 			case wok && !ok:
-				cr.viol("C16/cache/get/live-key-missing", fmt.Sprintf("Get(%s) missed; the key holds %v and is neither deleted, evicted nor expired", k, e.val))
+				cr.viol("C16/cache/get/live-key-missing", fmt.Sprintf("Get(%s) missed; the key holds %v and is neither deleted, evicted nor expired", k, e.cv))
 			case !wok && ok:
-				cr.viol("C16/cache/get/dead-key-present/"+cr.why(k), fmt.Sprintf("Get(%s) returned %v although the key is %s", k, got, cr.why(k)))
-			case wok && got != e.val:
-				cr.viol("C16/cache/get/not-latest-value", fmt.Sprintf("Get(%s) returned %v, latest value set is %v", k, got, e.val))
+				cr.viol("C16/cache/get/dead-key-present/"+cr.why(k), fmt.Sprintf("Get(%s) returned %s although the key is %s", k, vfDescr(got), cr.why(k)))
+			case wok && !vfSame(got, e.val):
+				cr.viol("C16/cache/get/not-latest-value"+vfClassSuffix(e.cv), fmt.Sprintf("Get(%s) returned %s, latest value set is %v (reference kinds are compared by identity)", k, vfDescr(got), e.cv))
 			}
 			if wok {
+				cr.vs.compared(e.val)
 				cr.touch(k)
 			}
 		case 2:
@@ -387,42 +442,43 @@ func vfCacheHistory(c *kit.Case, r *kit.Rand, sample bool) {
 				cr.drop(k, "deleted")
 			}
 		case 3:
-			cr.nextV++
-			loadV := cr.nextV
+			loadV := cr.vfNewVal(k)
 			fail := r.Chance(0.3)
-			cr.op(fmt.Sprintf("Take(%s, loader=>%s)", k, map[bool]string{false: fmt.Sprint(loadV), true: "error"}[fail]))
+			cr.op(fmt.Sprintf("Take(%s, loader=>%s)", k, map[bool]string{false: loadV.String(), true: "error"}[fail]))
 			calls := 0
 			got, gerr := cache.Take(k, func() (any, error) {
 				calls++
 				if fail {
 					return nil, vfErrLoad
 				}
-				return loadV, nil
+				return loadV.v, nil
 			})
 			e, hit := cr.model[k]
 			switch {
 			case hit:
 				cr.takeHits++
 				if calls > 0 {
-					cr.viol("C16/cache/take/loader-called-on-hit", fmt.Sprintf("Take(%s) called the loader although the key is cached with %v", k, e.val))
-				} else if gerr != nil || got != e.val {
-					cr.viol("C16/cache/take/not-latest-value", fmt.Sprintf("Take(%s) returned (%v,%v), latest value set is %v", k, got, gerr, e.val))
+					cr.viol("C16/cache/take/loader-called-on-hit", fmt.Sprintf("Take(%s) called the loader although the key is cached with %v", k, e.cv))
+				} else if gerr != nil || !vfSame(got, e.val) {
+					cr.viol("C16/cache/take/not-latest-value"+vfClassSuffix(e.cv), fmt.Sprintf("Take(%s) returned (%s,%v), latest value set is %v (reference kinds are compared by identity)", k, vfDescr(got), gerr, e.cv))
 				}
+				cr.vs.compared(e.val)
 				cr.touch(k)
 			case calls != 1:
 				cr.viol("C16/cache/take/loader-calls-on-miss", fmt.Sprintf("Take(%s) on a %s key called the loader %d times", k, cr.why(k), calls))
 			case fail:
 				cr.takeFails++
 				if gerr == nil {
-					cr.viol("C16/cache/take/load-error-swallowed", fmt.Sprintf("Take(%s): loader failed, Take returned (%v,nil)", k, got))
+					cr.viol("C16/cache/take/load-error-swallowed", fmt.Sprintf("Take(%s): loader failed, Take returned (%s,nil)", k, vfDescr(got)))
 				} else if v, ok := cache.Get(k); ok { // on a correct cache this Get misses and changes nothing
-					cr.viol("C16/cache/take/failed-load-cached", fmt.Sprintf("Take(%s): the loader failed, yet the key is cached afterwards with %v", k, v))
+					cr.viol("C16/cache/take/failed-load-cached", fmt.Sprintf("Take(%s): the loader failed, yet the key is cached afterwards with %s", k, vfDescr(v)))
 				}
 			default:
 				cr.takeLoads++
-				if gerr != nil || got != any(loadV) {
-					cr.viol("C16/cache/take/wrong-result-after-load", fmt.Sprintf("Take(%s): loader returned %d, Take returned (%v,%v)", k, loadV, got, gerr))
+				if gerr != nil || !vfSame(got, loadV.v) {
+					cr.viol("C16/cache/take/wrong-result-after-load"+vfClassSuffix(loadV), fmt.Sprintf("Take(%s): loader returned %v, Take returned (%s,%v)", k, loadV, vfDescr(got), gerr))
 				}
+				cr.vs.compared(loadV.v)
 				cr.mset(k, loadV, expire)
 			}
 		default:
@@ -484,6 +540,7 @@ func vfCacheHistory(c *kit.Case, r *kit.Rand, sample bool) {
 	c.Obs("wb_cache_evictions_after_an_expiry", cr.evictAfterExpiry)
 	c.Obs("wb_cache_take_hits", cr.takeHits)
 	c.Obs("wb_cache_take_loads", cr.takeLoads)
+	cr.vfValObs("wb_cache")
 	// non-trivial: an entry expired by ticks and a pending expiry was renewed by a Set of the cached key
 	c.Sig(cr.expiries > 0 && cr.renewals > 0, "wb-cache", limit, int64(expire), cr.h)
 	if sample {
